@@ -1,4 +1,6 @@
 import TextxVerif.Proofs.Link.Fqn
+import TextxVerif.Proofs.Link.FqnPath
+import TextxVerif.Proofs.Link.FqnText
 /-!
 # C10 — the FQN scope provider resolves only genuine qualified names
 
@@ -117,6 +119,128 @@ theorem C10_no_ref (c : Nat → Bool) (r₁ r₂ : Obj) (hs : strip r₁ = strip
   have := congrArg (Option.map Obj.id) this
   simpa [Option.map_map, Function.comp_def, strip_id] using this
 
+/-! ## the referencing object is any object of the model (no `pathTo` hypothesis)
+
+`C10_iff` / `C10_unknown_iff` / `C10_ancestors` are stated for a given result of
+`pathTo`.  In a model whose objects are distinct Python objects (`DistinctIds`, what the
+parser builds) the `parent` chain of *every* object of the model exists, starts at that
+object, ends in the root and is the only containment path to it (`IsPath` is the
+specification: each element is directly contained in the next). -/
+
+/-- **The ancestor list exists, starts at the referencing object and is unique.** -/
+theorem C10_path_complete (root c : Obj) (hd : DistinctIds root) (hc : Desc root c) :
+    ∃ rest, pathTo c.id root = some (c :: rest) ∧ IsPath c.id root (c :: rest) ∧
+      (c :: rest).getLast? = some root ∧
+      ∀ ancs, IsPath c.id root ancs → ancs = c :: rest := by
+  obtain ⟨rest, hp⟩ := hc.exists_isPath
+  exact ⟨rest, hp.pathTo_eq_some hd, hp, hp.last, fun ancs ha => IsPath.unique hd ha hp⟩
+
+/-- the provider's `parent` walk is defined exactly for the objects of the model -/
+theorem C10_path_defined_iff (root : Obj) (hd : DistinctIds root) (t : Nat) :
+    (pathTo t root).isSome ↔ ∃ c, Desc root c ∧ c.id = t :=
+  pathTo_isSome_iff hd t
+
+/-- **The property, for every referencing object of the model.** `ancs` is *the*
+containment path from the referencing object `c` outward to the root (specified by
+`IsPath`; it exists and starts with `c` by `C10_path_complete`).  With unique sibling
+names the dotted name resolves to `o` exactly when `o` ends a containment chain
+matching `parts`, of the target type, starting at the nearest element of `ancs` from
+which such a chain exists. -/
+theorem C10_iff' (conf : Obj → Bool) (root : Obj) (hd : DistinctIds root)
+    (hu : SiblingNamesUnique root) (c : Obj) (ancs : List Obj) (hp : IsPath c.id root ancs)
+    (parts : List String) (o : Obj) :
+    fqn conf root c.id parts = some o ↔
+      ∃ pre p post, ancs = pre ++ p :: post ∧ Chain p parts o ∧ conf o = true ∧
+        ∀ q, q ∈ pre → ¬ ∃ o', Chain q parts o' ∧ conf o' = true :=
+  C10_iff conf root hu c.id ancs (hp.pathTo_eq_some hd) parts o
+
+/-- `C10_iff'` with the path spelled out: it is `c :: rest`, so the search starts at the
+referencing object itself. -/
+theorem C10_iff_desc (conf : Obj → Bool) (root : Obj) (hd : DistinctIds root)
+    (hu : SiblingNamesUnique root) (c : Obj) (hc : Desc root c) :
+    ∃ rest, IsPath c.id root (c :: rest) ∧ ∀ (parts : List String) (o : Obj),
+      (fqn conf root c.id parts = some o ↔
+        ∃ pre p post, c :: rest = pre ++ p :: post ∧ Chain p parts o ∧ conf o = true ∧
+          ∀ q, q ∈ pre → ¬ ∃ o', Chain q parts o' ∧ conf o' = true) := by
+  obtain ⟨rest, hp⟩ := hc.exists_isPath
+  exact ⟨rest, hp, fun parts o => C10_iff' conf root hd hu c (c :: rest) hp parts o⟩
+
+/-- **Unknown object, for every referencing object of the model.** -/
+theorem C10_unknown_iff' (conf : Obj → Bool) (root : Obj) (hd : DistinctIds root)
+    (hu : SiblingNamesUnique root) (c : Obj) (ancs : List Obj) (hp : IsPath c.id root ancs)
+    (parts : List String) :
+    fqn conf root c.id parts = none ↔
+      ∀ q, q ∈ ancs → ¬ ∃ o, Chain q parts o ∧ conf o = true :=
+  C10_unknown_iff conf root hu c.id ancs (hp.pathTo_eq_some hd) parts
+
+/-- **Never through non-containment references, any conformance predicate.**
+`C10_no_ref` for every conformance predicate that does not look at non-containment
+attributes (`conf (strip o) = conf o`; `textx_isinstance` looks at the class only). -/
+theorem C10_no_ref' (conf : Obj → Bool) (hconf : ∀ o, conf (strip o) = conf o) (r₁ r₂ : Obj)
+    (hs : strip r₁ = strip r₂) (cur : Nat) (parts : List String) :
+    (fqn conf r₁ cur parts).map strip = (fqn conf r₂ cur parts).map strip := by
+  have h1 := fqn_strip' conf hconf r₁ cur parts
+  have h2 := fqn_strip' conf hconf r₂ cur parts
+  rw [hs] at h1
+  exact h1.symm.trans h2
+
+/-! ## the dotted reference text
+
+The provider gets the reference *text* and splits it with `fqn_name.split(".")`
+(`splitDots`, used by the driver).  The split is specified independently of its
+definition: it is the one and only list of dot-free parts whose `".".join` is the text. -/
+
+/-- **Specification of the split.** Never empty, no part contains a dot, joining the
+parts with dots gives the text back … -/
+theorem C10_split_spec (s : List Char) :
+    splitDotsL s ≠ [] ∧ (∀ w, w ∈ splitDotsL s → '.' ∉ w) ∧ joinDotsL (splitDotsL s) = s :=
+  ⟨splitDotsL_ne_nil s, splitDotsL_no_dot s, joinDotsL_splitDotsL s⟩
+
+/-- … and it is the only such list: the text `".".join(parts)` of dot-free `parts`
+splits into exactly `parts`. -/
+theorem C10_split_unique (s : List Char) (parts : List (List Char)) (hne : parts ≠ [])
+    (hnd : ∀ w, w ∈ parts → '.' ∉ w) (hj : joinDotsL parts = s) : splitDotsL s = parts := by
+  rw [← hj]; exact splitDotsL_joinDotsL parts hne hnd
+
+/-- **The property on the text.** For dot-free, non-empty `parts` the provider called with
+the text `".".join(parts)` from object `c` of the model resolves to `o` exactly when `o`
+ends a conforming containment chain matching `parts` from the nearest ancestor-or-self
+of `c` that has one. -/
+theorem C10_text_iff (conf : Obj → Bool) (root : Obj) (hd : DistinctIds root)
+    (hu : SiblingNamesUnique root) (c : Obj) (ancs : List Obj) (hp : IsPath c.id root ancs)
+    (parts : List String) (hne : parts ≠ []) (hnd : ∀ w, w ∈ parts → '.' ∉ w.toList) (o : Obj) :
+    fqnText conf root c.id (String.ofList (joinDotsL (parts.map String.toList))) = some o ↔
+      ∃ pre p post, ancs = pre ++ p :: post ∧ Chain p parts o ∧ conf o = true ∧
+        ∀ q, q ∈ pre → ¬ ∃ o', Chain q parts o' ∧ conf o' = true := by
+  unfold fqnText
+  rw [splitDots_join parts hne hnd]
+  exact C10_iff' conf root hd hu c ancs hp parts o
+
+/-- **Empty parts** (`a..b`, `.a`, `a.`, the empty text): when no object of the model is
+named `""` such a name resolves from nowhere — no uniqueness hypothesis needed. -/
+theorem C10_empty_part (conf : Obj → Bool) (root : Obj)
+    (hnm : ∀ k, Desc root k → k.name ≠ some "") (cur : Nat) (parts : List String)
+    (he : "" ∈ parts) : fqn conf root cur parts = none := by
+  cases h : fqn conf root cur parts with
+  | none => rfl
+  | some o =>
+    obtain ⟨ancs, p, hp, hpm, hch, _, _⟩ := C10_no_parent conf root cur parts o h
+    obtain ⟨k, hk, hkn⟩ := hch.named "" he
+    exact absurd hkn (hnm k (((pathTo_isPath cur root ancs hp).desc p hpm).trans hk))
+
+/-! ## the guard is the repair
+
+`walkHeap guard deref parentOf` is `find_obj`'s loop over *all* entries of `__dict__` —
+containment attributes, resolved reference attributes (through `deref`) and `parent`
+(through `parentOf`) — where `guard` is the repaired condition
+`a in tx_attrs and tx_attrs[a].cont`.  Without the guard it is the pinned walk of
+`C10_pinned_false`; with it, whatever the heap holds in reference attributes and `parent`
+links, it is the containment walk `walk` all theorems above speak about. -/
+theorem C10_heap_frame (deref parentOf : Nat → Option Obj) (p : Obj) (parts : List String) :
+    walkHeap true deref parentOf p parts = walk p parts ∧
+    walkHeap false deref parentOf p parts = walkPinned deref parentOf p parts :=
+  ⟨walkHeap_true deref parentOf p parts, walkHeap_false deref parentOf p parts⟩
+
 /-! ## the pinned behaviour violates the property (negation witness) -/
 
 /-- `package p { class a friend b;  class b; }` -/
@@ -162,5 +286,34 @@ example : (fqn (fun o => o.cls == 0) exModel 3 ["p"]).map Obj.id = some 1 := by 
 example : (fqn (fun _ => true) exModel 0 ["p", "a", "p", "b"]).map Obj.id = none := by decide
 example : (fqn (fun _ => true) exModel 0 ["p", "a", "b"]).map Obj.id = none := by decide
 example : (pathTo 2 exModel).map (fun p => p.map Obj.id) = some [2, 1, 0] := by decide
+
+/-- the witness is a tree of distinct objects; the `parent` chain of class `a` -/
+example : DistinctIds exModel := by unfold DistinctIds; decide
+example : Desc exModel exA :=
+  Desc.step (k := exP) (by simp [exModel, Obj.children, Obj.attrs, Attr.kids])
+    (Desc.child (by simp [exP, Obj.children, Obj.attrs, Attr.kids]))
+example : IsPath exA.id exModel [exA, exP, exModel] :=
+  IsPath.inside (o := exModel) (k := exP) (p := [exA, exP]) (by simp [exModel, Obj.children, Obj.attrs, Attr.kids])
+    (IsPath.inside (o := exP) (p := [exA]) (by simp [exP, Obj.children, Obj.attrs, Attr.kids]) (IsPath.here rfl))
+/-- a conformance predicate that looks at class and name only is blind to references -/
+example : ∀ o, (fun o : Obj => o.cls == 1 && o.name != some "x") (strip o) =
+    (fun o : Obj => o.cls == 1 && o.name != some "x") o := by
+  intro o; simp [strip_cls, strip_name]
+
+/-- the split on concrete texts (Python: `"a..b".split(".") == ["a", "", "b"]`, `"".split(".") == [""]`) -/
+example : splitDotsL "p.a.b".toList = ["p".toList, "a".toList, "b".toList] := by decide
+example : splitDotsL "a..b".toList = ["a".toList, [], "b".toList] := by decide
+example : splitDotsL "".toList = [[]] := by decide
+example : splitDotsL ".a".toList = [[], "a".toList] := by decide
+example : joinDotsL ["p".toList, "a".toList] = "p.a".toList := by decide
+/-- the hypotheses of `C10_text_iff` / `C10_empty_part` on the witness -/
+example : ∀ w, w ∈ ["p", "b"] → '.' ∉ w.toList := by decide
+example : ∀ k, Desc exModel k → k.name ≠ some "" := by
+  intro k hk
+  have hall : ∀ x, x ∈ preorder exModel → x.name ≠ some "" := by decide
+  exact hall k ((mem_preorder_iff_desc _ _).2 hk)
+/-- on the witness heap the guarded walk refuses what the unguarded one resolves -/
+example : (walkHeap true exDeref exParent exModel ["p", "a", "p", "b"]).map Obj.id = none ∧
+    (walkHeap false exDeref exParent exModel ["p", "a", "p", "b"]).map Obj.id = some 3 := by decide
 
 end Link
